@@ -19,9 +19,9 @@ Rec == ndJsonDeserialize(IOEnv.TRACE)
 PatElig(v)  == ~(\E i \in 1..Len(v) : v[i] \in {LT, GT, LBRACE, RBRACE}) /\ (v = <<>> \/ v[1] # EQ)
 NameElig(v) == ~Has(v, DASH)
 
-Nine(a, b, lb) ==
-    LET s       == CmpL(a, b, lb)
-        askable == NameElig(a) /\ PatElig(b)
+\* the nine observations of one ordered pair, given the sign of a versus b
+NineS(a, b, s) ==
+    LET askable == NameElig(a) /\ PatElig(b)
         q(op)   == IF ~askable THEN "na" ELSE IF OpHolds(op, s) THEN "T" ELSE "F"
         best    == IF ~(NameElig(a) /\ NameElig(b)) THEN "na"
                    ELSE IF a = b THEN "ab"
@@ -31,13 +31,17 @@ Nine(a, b, lb) ==
 
 Shape(o, keys) == keys \subseteq DOMAIN o
 
+\* each version is tokenised once per letter base; the sign of (b, a) is minus that of (a, b)
+\* (MC_DeweyLaws / OrderProofs), so long versions cost one comparison
 VercmpVerdict(r) ==
     IF ~Shape(r.out, {"ab", "ba"}) THEN "bad"
     ELSE IF LongRun(r.in.a) \/ LongRun(r.in.b) THEN "ok"          \* outside C01's domain
-    ELSE LET a == r.in.a  b == r.in.b IN
-         IF r.out.ab = Nine(a, b, 0) /\ r.out.ba = Nine(b, a, 0) THEN "ok"
-         ELSE IF r.out.ab = Nine(a, b, 96) /\ r.out.ba = Nine(b, a, 96) THEN "KF1"
-         ELSE "bad"
+    ELSE LET a == r.in.a  b == r.in.b
+             s0 == CmpL(a, b, 0)
+         IN IF r.out.ab = NineS(a, b, s0) /\ r.out.ba = NineS(b, a, -s0) THEN "ok"
+            ELSE LET s96 == CmpL(a, b, 96) IN
+                 IF r.out.ab = NineS(a, b, s96) /\ r.out.ba = NineS(b, a, -s96) THEN "KF1"
+                 ELSE "bad"
 
 \* ---- laws on observed verdicts ------------------------------------------------------
 \* sign encoded by four verdicts (GT, GE, LT, LE); 2 = not a consistent answer
